@@ -369,7 +369,54 @@ def rule_golomb_unbounded(ctx: Ctx, rep: Report) -> None:
     rep.floor(rule, 1)
 
 
+def rule_one_script_per_input(ctx: Ctx, rep: Report) -> None:
+    """C17.one_script_per_input: `prevout_scripts_from_utxos` answers the script each
+    non-coinbase input spends, one per input -- `from_block` counts them against
+    the inputs and does BIP158's own filtering (empty scripts, OP_RETURN
+    outputs). The append is therefore under no test of the script itself: an
+    adapter that drops the empty ones makes a block that spends an empty
+    script_pub_key one whose filter cannot be built."""
+    rule = "C17.one_script_per_input"
+    fi = ctx.func("btclib.block.block_filter.prevout_scripts_from_utxos")
+    g = ctx.cfg(fi)
+    apps = [c for c in own_nodes(fi.node) if isinstance(c, ast.Call) and isinstance(c.func, ast.Attribute) and c.func.attr == "append"]
+    if not apps:
+        rep.unknown(rule, "prevout_scripts_from_utxos", fi.where(), "no append")
+        return
+    for c in apps:
+        facts = [(str(t), pol) for t, pol in g.facts_at_ast(c)]
+        on_script = [t for t, pol in facts if pol and ("script" in t.lower()) and "not in" not in t and " in " not in t]
+        rep.ob(rule, "prevout_scripts_from_utxos:append", not on_script, fi.where(c), "every resolved previous output contributes its script" if not on_script else
+               f"the script is appended only under {on_script}: the answer is no longer one script per input")
+    rep.floor(rule, 1)
+
+
+def rule_unary_run_unbounded(ctx: Ctx, rep: Report) -> None:
+    """C17.unary_run_unbounded: the Golomb-Rice quotient is written in unary, and
+    its length has no bound (delta >> P with delta up to N*M): the bits written
+    for it are computed from the quotient. A *constant* written at a variable
+    width (`write(0xFFFFFFFFFFFFFFFF, quotient)`) is ones only for as many
+    bits as the constant has -- Core chunks its `Write(~0ULL, n)` by 64 for that
+    reason -- and a quotient of 65 is written as zeros."""
+    rule = "C17.unary_run_unbounded"
+    n = 0
+    for q, fi in sorted(ctx.prog.functions.items()):
+        if not q.startswith("btclib.block.block_filter."):
+            continue
+        for c in own_nodes(fi.node):
+            if isinstance(c, ast.Call) and isinstance(c.func, ast.Attribute) and c.func.attr == "write" and len(c.args) == 2:
+                n += 1
+                v, w = ctx.fold(c.args[0], fi.module), ctx.fold(c.args[1], fi.module)
+                bad = isinstance(v, int) and not isinstance(v, bool) and v > 1 and not isinstance(w, int)
+                rep.ob(rule, f"{q}:{norm(c)[:40]}", not bad, fi.where(c), "value and width agree" if not bad else
+                       f"`{norm(c)}` writes a {v.bit_length()}-bit constant at a width computed at run time: past {v.bit_length()} bits the run of ones is zeros")
+    rep.floor(rule, 2)
+
+
 RULES = [
+    ("C17.one_script_per_input", rule_one_script_per_input),
+    ("C17.unary_run_unbounded", rule_unary_run_unbounded),
+
     ("C17.every_node_is_parsed", rule_every_node_is_parsed),
     ("C17.golomb_unbounded", rule_golomb_unbounded),
     ("C17.no_stale_cache", rule_no_stale_cache_),
